@@ -127,6 +127,10 @@ pub fn run(ctx: &mut Ctx) {
   // ---- range evaluation = point by point (implementation against itself)
   range_eval(ctx);
 
+  // ---- the same clause on setups other than the default one: copied signal/idler blocks with distinct waist
+  // positions, explicit idlers, degenerate references (zero / NaN centre amplitude), grids that leave the valid box
+  range_setups(ctx);
+
   // ---- history independence: a sample of the traversals above, re-evaluated in reverse order at
   // the end of the run, must be bit-identical (no state kept between calls)
   history_replay(ctx);
@@ -694,8 +698,12 @@ fn same_values(a: &[f64], b: &[f64], exact: bool) -> bool {
   }
   let peak = a.iter().fold(0.0f64, |m, v| m.max(v.abs()));
   a.iter().zip(b).all(|(x, y)| {
-    if x.to_bits() == y.to_bits() || x == y {
+    // identical includes the non-finite values: NaN where the point-by-point value is NaN (any payload), ±inf where it is ±inf
+    if x.to_bits() == y.to_bits() || x == y || (x.is_nan() && y.is_nan()) {
       return true;
+    }
+    if x.is_nan() != y.is_nan() {
+      return false;
     }
     !exact && (x - y).abs() <= 1e-12 * x.abs().max(y.abs()).max(1e-3 * peak)
   })
@@ -725,8 +733,10 @@ fn all_ranges<T: IntoSignalIdlerIterator + Clone>(sp: &spdcalc::jsa::JointSpectr
   out
 }
 
-/// point-by-point evaluation of the six functions that have a point-wise form
-fn all_pointwise(sp: &spdcalc::jsa::JointSpectrum, pts: &[(Frequency, Frequency)], singles: bool) -> Vec<(&'static str, Vec<f64>, bool)> {
+/// point-by-point evaluation: the six functions that have a point-wise form on `sp` itself and — when the spectrum `ex`
+/// of the EXCHANGED setup (`SPDC::with_swapped_signal_idler`) is given — the two idler-singles functions, whose
+/// point-wise form is the exchanged setup's `jsi_singles(wi, ws)` / `jsi_singles_normalized(wi, ws)`
+fn all_pointwise(sp: &spdcalc::jsa::JointSpectrum, ex: Option<&spdcalc::jsa::JointSpectrum>, pts: &[(Frequency, Frequency)], singles: bool) -> Vec<(&'static str, Vec<f64>, bool)> {
   let mut out = vec![
     ("jsa_range", cflat(&pts.iter().map(|p| sp.jsa(p.0, p.1)).collect::<Vec<_>>()), false),
     ("jsa_normalized_range", cflat(&pts.iter().map(|p| sp.jsa_normalized(p.0, p.1)).collect::<Vec<_>>()), false),
@@ -736,6 +746,10 @@ fn all_pointwise(sp: &spdcalc::jsa::JointSpectrum, pts: &[(Frequency, Frequency)
   if singles {
     out.push(("jsi_singles_range", jflat(&pts.iter().map(|p| sp.jsi_singles(p.0, p.1)).collect::<Vec<_>>()), true));
     out.push(("jsi_singles_normalized_range", pts.iter().map(|p| sp.jsi_singles_normalized(p.0, p.1)).collect(), true));
+    if let Some(ex) = ex {
+      out.push(("jsi_singles_idler_range", jflat(&pts.iter().map(|p| ex.jsi_singles(p.1, p.0)).collect::<Vec<_>>()), true));
+      out.push(("jsi_singles_idler_normalized_range", pts.iter().map(|p| ex.jsi_singles_normalized(p.1, p.0)).collect(), true));
+    }
   }
   out
 }
@@ -910,6 +924,7 @@ fn range_eval(ctx: &mut Ctx) {
       let singles = use2d && nx * ny <= 12;
       let r = guard(|| {
         let sp = spdc.joint_spectrum(integ);
+        let ex = if singles { Some(spdc.clone().with_swapped_signal_idler().joint_spectrum(integ)) } else { None };
         let exact_of = |two_d: bool| if two_d { !par2d } else { !par1d };
         let mut bad: Vec<String> = Vec::new();
         let kinds: [(&str, Vec<(&'static str, Vec<f64>, bool)>, &Vec<(Frequency, Frequency)>); 5] = [
@@ -921,7 +936,7 @@ fn range_eval(ctx: &mut Ctx) {
         ];
         // one value per grid point, identical to point-by-point evaluation
         for (kname, vals, pts) in kinds.iter() {
-          let pw = all_pointwise(&sp, pts, singles);
+          let pw = all_pointwise(&sp, ex.as_ref(), pts, singles);
           for (fname, v, two_d) in vals.iter() {
             let per = if fname.starts_with("jsa") { 2 } else { 1 };
             if v.len() != per * nx * ny {
@@ -959,5 +974,188 @@ fn range_eval(ctx: &mut Ctx) {
       ctx.count(&format!("range/integrator/{}", iname));
     }
     ctx.count("range/shapes");
+  }
+}
+
+/// JSON configuration of one setup of the named kind (random parameters); `None` when the kind index is past the end
+fn range_setup_json(r: &mut Rng, kind: usize) -> Option<(&'static str, serde_json::Value)> {
+  use serde_json::json;
+  let length = r.range(2000.0, 12000.0).round();
+  // two DIFFERENT explicit waist positions inside the crystal (µm, negative = inside)
+  let zs = -(r.range(0.02, 0.45) * length).round();
+  let zi = -(r.range(0.55, 0.98) * length).round();
+  let waist = r.range(35.0, 110.0).round();
+  let pump = |wl: f64, bw: f64, power: f64| json!({"wavelength_nm": wl, "waist_um": r_waist(waist), "bandwidth_nm": bw, "average_power_mw": power});
+  fn r_waist(w: f64) -> f64 {
+    2.0 * w
+  }
+  let ktp = |pm: &str| json!({"kind": "KTP", "pm_type": pm, "phi_deg": 0, "theta_deg": 90, "length_um": length, "temperature_c": 20});
+  let beam = |wl: f64, phi: f64, theta: f64, w: f64, z: serde_json::Value| json!({"wavelength_nm": wl, "phi_deg": phi, "theta_deg": theta, "waist_um": w, "waist_position_um": z});
+  let auto_pp = json!({"poling_period_um": "auto"});
+  let copied = |theta: f64, zs: serde_json::Value, zi: serde_json::Value, deff: f64, power: f64, bw: f64| {
+    json!({"crystal": ktp("e->ee"), "pump": pump(775.0, bw, power), "signal": beam(1550.0, 0.0, theta, waist, zs), "idler": beam(1550.0, 0.0, theta, waist, zi),
+           "periodic_poling": auto_pp.clone(), "deff_pm_per_volt": deff})
+  };
+  Some(match kind {
+    // idler block = COPY of the signal block (the two Beams compare equal), two different collection foci
+    0 => ("copied-blocks/type0-collinear", copied(0.0, json!(zs), json!(zi), 7.6, 10.0, 2.0)),
+    1 => ("copied-blocks/type0-noncollinear", copied(r.range(0.2, 1.5), json!(zs), json!(zi), 7.6, 10.0, 2.0)),
+    2 => ("copied-blocks/one-auto-waist-position", copied(0.0, json!("auto"), json!(zi), 7.6, 10.0, 2.0)),
+    3 => ("copied-blocks/type1-bbo-unpoled", json!({
+      "crystal": {"kind": "BBO_1", "pm_type": "e->oo", "phi_deg": 0, "theta_deg": "auto", "length_um": (length / 4.0).round(), "temperature_c": 20},
+      "pump": pump(405.0, 0.5, 10.0), "signal": beam(810.0, 0.0, 0.0, waist, json!((zs / 4.0).round())), "idler": beam(810.0, 0.0, 0.0, waist, json!((zi / 4.0).round())),
+      "deff_pm_per_volt": 2.0})),
+    // explicit idler that is NOT a copy: other polarization, azimuth, waist, focus
+    4 => ("explicit-idler/type2", json!({"crystal": ktp("e->eo"), "pump": pump(775.0, 1.0, 10.0), "signal": beam(1550.0, 0.0, 0.0, waist, json!(zs)),
+      "idler": beam(1550.0, 180.0, 0.0, (waist * 1.4).round(), json!(zi)), "periodic_poling": auto_pp, "deff_pm_per_volt": 7.6})),
+    5 => ("explicit-idler/type0-same-beam-but-azimuth", json!({"crystal": ktp("e->ee"), "pump": pump(775.0, 2.0, 10.0), "signal": beam(1550.0, 0.0, 0.0, waist, json!(zs)),
+      "idler": beam(1550.0, 180.0, 0.0, waist, json!(zi)), "periodic_poling": auto_pp, "deff_pm_per_volt": 7.6})),
+    6 => ("auto-idler/type2-nondegenerate", json!({"crystal": ktp("e->eo"), "pump": pump(775.0, 1.0, 10.0), "signal": beam(r.range(1480.0, 1540.0).round(), 0.0, 0.0, waist, json!("auto")),
+      "idler": "auto", "periodic_poling": auto_pp, "deff_pm_per_volt": 7.6})),
+    // degenerate references: the centre amplitude (normalisation of every *_normalized value) is exactly zero
+    7 => ("zero-centre/outside-0.75wp-box", json!({
+      "crystal": {"kind": "LiNbO3_1", "pm_type": "e->ee", "phi_deg": 0, "theta_deg": 90, "length_um": length, "temperature_c": 20},
+      "pump": pump(532.0, 1.0, 10.0), "signal": beam(r.range(590.0, 605.0).round(), 0.0, 0.0, waist, json!("auto")), "idler": "auto",
+      "periodic_poling": auto_pp, "deff_pm_per_volt": 20.0})),
+    8 => ("zero-centre/deff-zero", copied(0.0, json!(zs), json!(zi), 0.0, 10.0, 2.0)),
+    9 => ("zero-centre/power-zero", copied(0.0, json!(zs), json!(zi), 7.6, 0.0, 2.0)),
+    10 => ("zero-centre/type2-deff-zero", json!({"crystal": ktp("e->eo"), "pump": pump(775.0, 1.0, 10.0), "signal": beam(1550.0, 0.0, 0.0, waist, json!("auto")),
+      "idler": "auto", "periodic_poling": auto_pp, "deff_pm_per_volt": 0.0})),
+    // NaN reference: a monochromatic pump (zero bandwidth) makes the pump envelope 0/0 at the centre
+    11 => ("nan-centre/bandwidth-zero", copied(0.0, json!(zs), json!(zi), 7.6, 10.0, 0.0)),
+    _ => return None,
+  })
+}
+
+/// "Range-evaluating spectrum functions return one value per grid point in that order, identical to evaluating point by
+/// point, and a flat list of (signal, idler) pairs gives the same values as the equivalent grid" — on setups other than
+/// `SPDC::default()`: every `*_range` function (the idler-singles ones against the EXCHANGED setup evaluated point by
+/// point) × the five kinds of range × a grid around the centre and a grid that leaves the valid frequency box,
+/// non-finite values included (NaN where the point value is NaN).
+fn range_setups(ctx: &mut Ctx) {
+  let reps = if ctx.thorough { 5 } else { 1 };
+  let integrators: Vec<(&str, Integrator, bool)> = if ctx.thorough {
+    vec![("gauss-legendre4", Integrator::GaussLegendre { degree: 4 }, false), ("simpson10", Integrator::Simpson { divs: 10 }, true), ("simpson50", Integrator::default(), true)]
+  } else {
+    vec![("gauss-legendre4", Integrator::GaussLegendre { degree: 4 }, false), ("simpson10", Integrator::Simpson { divs: 10 }, true)]
+  };
+  for rep in 0..reps {
+    let mut kind = 0;
+    while let Some((sname, js)) = range_setup_json(&mut ctx.rng, kind) {
+      kind += 1;
+      let text = js.to_string();
+      let spdc: Option<SPDC> = guard(|| serde_json::from_value::<SPDCConfig>(js).ok().and_then(|c| c.try_as_spdc().ok())).flatten();
+      let spdc = match spdc {
+        Some(s) => s,
+        None => {
+          // the generator is expected to produce valid configurations only
+          ctx.count(&format!("range-setup/{}/not-constructible", sname));
+          continue;
+        }
+      };
+      ctx.count(&format!("range-setup/{}", sname));
+      if *spdc.signal == *spdc.idler && spdc.signal_waist_position != spdc.idler_waist_position {
+        ctx.count("range-setup/equal-beams-distinct-waist-positions");
+      }
+      let (w_s, w_i, w_p) = (*(spdc.signal.frequency() / (RAD / S)), *(spdc.idler.frequency() / (RAD / S)), *(spdc.pump.frequency() / (RAD / S)));
+      let d = ctx.rng.log_range(1e12, 1.5e13);
+      // (name, signal axis, idler axis): around the centre (non-square, skewed); leaving the valid box on every side
+      let grids: [(&str, (f64, f64, usize), (f64, f64, usize)); 2] = [
+        ("centre", (w_s - d, w_s + d, 4), (w_i - 0.5 * d, w_i + d, 3)),
+        ("beyond-valid-box", (0.04 * w_p, 1.1 * w_p, 3), (0.9 * w_p, 0.03 * w_p, 3)),
+      ];
+      for (gi, (gname, gx, gy)) in grids.iter().enumerate() {
+        // the wide grid only every other repetition in the thorough tier (it is mostly zeros)
+        if gi == 1 && rep % 2 == 1 {
+          continue;
+        }
+        let fs = FrequencySpace::new((gx.0 * RAD / S, gx.1 * RAD / S, gx.2), (gy.0 * RAD / S, gy.1 * RAD / S, gy.2));
+        let ws = fs.as_wavelength_space();
+        let sd = fs.as_sum_diff_space();
+        let wl_flat: Vec<Wavelength> = ws.as_steps().into_iter().flat_map(|(s, i)| [s, i]).collect();
+        let fr_flat: Vec<Frequency> = fs.as_steps().into_iter().flat_map(|(s, i)| [s, i]).collect();
+        let p_ws: Vec<(Frequency, Frequency)> = ws.into_signal_idler_iterator().collect();
+        let p_fs: Vec<(Frequency, Frequency)> = fs.into_signal_idler_iterator().collect();
+        let p_sd: Vec<(Frequency, Frequency)> = sd.into_signal_idler_iterator().collect();
+        let p_wf: Vec<(Frequency, Frequency)> = SignalIdlerWavelengthArray(wl_flat.clone()).into_signal_idler_iterator().collect();
+        let p_ff: Vec<(Frequency, Frequency)> = SignalIdlerFrequencyArray(fr_flat.clone()).into_signal_idler_iterator().collect();
+        let npts = gx.2 * gy.2;
+        for &(iname, integ, par2d) in integrators.iter() {
+          let r = guard(|| {
+            let sp = spdc.joint_spectrum(integ);
+            let ex = spdc.clone().with_swapped_signal_idler().joint_spectrum(integ);
+            let exact_of = |two_d: bool| !(two_d && par2d);
+            let mut bad: Vec<String> = Vec::new();
+            let mut stats = (0usize, 0usize, 0usize); // values: finite non-zero, zero, non-finite
+            let kinds: [(&str, Vec<(&'static str, Vec<f64>, bool)>, &Vec<(Frequency, Frequency)>); 5] = [
+              ("wavelength", all_ranges(&sp, ws, true), &p_ws),
+              ("frequency", all_ranges(&sp, fs, true), &p_fs),
+              ("sumdiff", all_ranges(&sp, sd, true), &p_sd),
+              ("flat-wavelength", all_ranges(&sp, SignalIdlerWavelengthArray(wl_flat.clone()), true), &p_wf),
+              ("flat-frequency", all_ranges(&sp, SignalIdlerFrequencyArray(fr_flat.clone()), true), &p_ff),
+            ];
+            for (kname, vals, pts) in kinds.iter() {
+              let pw = all_pointwise(&sp, Some(&ex), pts, true);
+              for (fname, v, two_d) in vals.iter() {
+                let per = if fname.starts_with("jsa") { 2 } else { 1 };
+                if v.len() != per * npts {
+                  bad.push(format!("pointwise:{}:{}:length", kname, fname));
+                  continue;
+                }
+                for x in v.iter() {
+                  if !x.is_finite() {
+                    stats.2 += 1;
+                  } else if *x == 0.0 {
+                    stats.1 += 1;
+                  } else {
+                    stats.0 += 1;
+                  }
+                }
+                match pw.iter().find(|p| p.0 == *fname) {
+                  Some((_, e, _)) => {
+                    if !same_values(e, v, exact_of(*two_d)) {
+                      let k = e.iter().zip(v.iter()).position(|(a, b)| !same_values(&[*a], &[*b], exact_of(*two_d))).unwrap_or(0);
+                      bad.push(format!("pointwise:{}:{}:k={}:range={:e}:point={:e}", kname, fname, k / per, v[k], e[k]));
+                    }
+                  }
+                  None => bad.push(format!("pointwise:{}:{}:no-pointwise-form", kname, fname)),
+                }
+              }
+            }
+            for (flat_i, grid_i, label) in [(3usize, 0usize, "flat-wavelength-array"), (4, 1, "flat-frequency-array")] {
+              for ((fname, v, two_d), (_, g, _)) in kinds[flat_i].1.iter().zip(kinds[grid_i].1.iter()) {
+                if !same_values(g, v, exact_of(*two_d)) {
+                  bad.push(format!("{}:{}", label, fname));
+                }
+              }
+            }
+            (bad, stats)
+          });
+          let detail = |what: &str| format!("setup={} grid={} fs=({:e},{:e},{})x({:e},{:e},{}) integrator={} {} config={}", sname, gname, gx.0, gx.1, gx.2, gy.0, gy.1, gy.2, iname, what, text.replace(' ', ""));
+          match r {
+            None => ctx.s("C14.range", false, "range/setups/panic", &detail("")),
+            Some((bad, stats)) => {
+              let pw: Vec<&String> = bad.iter().filter(|b| b.starts_with("pointwise")).collect();
+              // signature names the first differing function (stable per defect)
+              let sig = match pw.first() {
+                None => "range/setups/pointwise".to_string(),
+                Some(b) => format!("range/setups/pointwise/{}", b.split(':').nth(2).unwrap_or("?")),
+              };
+              ctx.s("C14.range", pw.is_empty(), &sig, &detail(&format!("first={}", pw.iter().take(3).map(|x| x.as_str()).collect::<Vec<_>>().join(","))));
+              for label in ["flat-wavelength-array", "flat-frequency-array"] {
+                let b: Vec<&String> = bad.iter().filter(|b| b.starts_with(label)).collect();
+                ctx.s("C14.range", b.is_empty(), &format!("range/setups/{}", label), &detail(&format!("first={}", b.iter().take(3).map(|x| x.as_str()).collect::<Vec<_>>().join(","))));
+              }
+              if stats.0 > 0 {
+                ctx.count(&format!("range-setup/{}/{}/has-finite-nonzero-values", sname, gname));
+              }
+              if stats.2 > 0 {
+                ctx.count(&format!("range-setup/{}/{}/has-non-finite-values", sname, gname));
+              }
+            }
+          }
+        }
+      }
+    }
   }
 }
